@@ -1,5 +1,7 @@
 import GramModel.Lemmas.Eval
 import GramModel.Check
+import GramModel.Oracle
+import GramModel.Lemmas.Progress
 
 /-!
 # C01 — accepted programs never get stuck (progress)
@@ -46,3 +48,37 @@ theorem C01_false_forward : C01_false_forward_stmt := by unfold C01_false_forwar
 /-- KF-barehole: the program `_` is accepted (type `type`) and is stuck on its hole. -/
 def C01_false_barehole_stmt : Prop := acceptedAndStuck 10 (.hole 0 0) 1 .hole = true
 theorem C01_false_barehole : C01_false_barehole_stmt := by unfold C01_false_barehole_stmt; decide
+
+/-! ## One-step progress for the independent checker's type system -/
+
+/-- **A well-typed term is never stuck for a kind reason.**  If the independent checker accepts a
+hole-free term (in any context) and the term neither steps nor is a value, then it is stuck at a
+variable in evaluation position (a definition that is not available yet — the only way a
+*closed* accepted program can stop, and exactly the recorded finding KF-order) or at a division by
+zero: never at a call of a non-function, arithmetic or comparison on a non-literal, a branch on a
+non-boolean, or a hole. -/
+def C01_typed_stuck_only_var_or_div_stmt : Prop :=
+  ∀ (f : Nat) (Γ : TCtxX) (Δ : DCtxX) (t T : Tm) (r : StuckReason), t.holeFree = true →
+    inferX f Γ Δ t = .ok T → stuckReason t = some r → r = .variable ∨ r = .divZero
+theorem C01_typed_stuck_only_var_or_div : C01_typed_stuck_only_var_or_div_stmt :=
+  fun f Γ Δ t T r hf h hs => OracleLemmas.typed_stuck_only_var_or_div t r hs f Γ Δ T hf h
+
+/-- **Progress, in the usual form.**  A hole-free term accepted by the independent checker is a
+value, or takes a step of the call-by-value semantics, or is stuck at a variable in evaluation
+position, or is stuck at a division by zero — nothing else. -/
+def C01_typed_progress_stmt : Prop :=
+  ∀ (f : Nat) (Γ : TCtxX) (Δ : DCtxX) (t T : Tm), t.holeFree = true → inferX f Γ Δ t = .ok T →
+    isValue t = true ∨ (∃ t', Step t t') ∨ stuckReason t = some .variable ∨
+      stuckReason t = some .divZero
+theorem C01_typed_progress : C01_typed_progress_stmt := by
+  intro f Γ Δ t T hf h
+  cases hv : isValue t with
+  | true => exact Or.inl rfl
+  | false =>
+    cases hs : step t with
+    | some t' => exact Or.inr (Or.inl ⟨t', step_sound t t' hs⟩)
+    | none =>
+      obtain ⟨r, hr⟩ := stuckReason_complete t hs hv
+      rcases C01_typed_stuck_only_var_or_div f Γ Δ t T r hf h hr with e | e
+      · exact Or.inr (Or.inr (Or.inl (e ▸ hr)))
+      · exact Or.inr (Or.inr (Or.inr (e ▸ hr)))
